@@ -472,4 +472,89 @@ theorem anyComponent_sound (R : Policy) (q1 : A.D → Bool) (q2 : B.D → Bool) 
   · exact hP _ _ (fun p hp => (r.keep p hp.1 hp.2).1) (h1 _ h)
   · exact hP _ _ (fun p hp => (r.keep p hp.1 hp.2).2) (h2 _ h)
 
+/-! ### `relation_with`, `maximize`, `minimize` -/
+
+/-- every fact reported by `relation_with(c)` is true of the intersection, provided the component
+    answers are sound (`sat` = the point set of the constraint / congruence, `hyp` = its hyperplane) -/
+theorem relationWith_sound (R : Policy) (q1 : A.D → Rel3) (q2 : B.D → Rel3) (sat hyp : Pt → Prop)
+    (h1 : ∀ a, ((q1 a).included = true → ∀ p, A.γ a p → sat p) ∧ ((q1 a).disjoint = true → ∀ p, A.γ a p → ¬ sat p) ∧
+               ((q1 a).saturates = true → ∀ p, A.γ a p → hyp p))
+    (h2 : ∀ b, ((q2 b).included = true → ∀ p, B.γ b p → sat p) ∧ ((q2 b).disjoint = true → ∀ p, B.γ b p → ¬ sat p) ∧
+               ((q2 b).saturates = true → ∀ p, B.γ b p → hyp p))
+    (x : Prod A B) (p : Pt) (hp : A.γ x.d1 p ∧ B.γ x.d2 p) :
+    ((relationWith A B R q1 q2 x).included = true → sat p) ∧
+    ((relationWith A B R q1 q2 x).disjoint = true → ¬ sat p) ∧
+    ((relationWith A B R q1 q2 x).saturates = true → hyp p) := by
+  obtain ⟨a, b⟩ := (reduce_red A B R x).keep p hp.1 hp.2
+  unfold relationWith relCombine
+  simp only [Bool.or_eq_true]
+  refine ⟨?_, ?_, ?_⟩
+  · rintro (h | h)
+    · exact (h1 _).1 h p a
+    · exact (h2 _).1 h p b
+  · rintro (h | h)
+    · exact (h1 _).2.1 h p a
+    · exact (h2 _).2.1 h p b
+  · rintro (h | h)
+    · exact (h1 _).2.2 h p a
+    · exact (h2 _).2.2 h p b
+
+/-- the value reported by `maximize` is an upper bound of the expression on the intersection
+    (whichever component it is taken from) -/
+theorem prodMaximize_sound (R : Policy) (x : Prod A B) (e : LE) (n dn : Int) (incl : Bool)
+    (h : prodMaximize A B R x e = some (n, dn, incl)) (p : Pt) (hp : A.γ x.d1 p ∧ B.γ x.d2 p) :
+    0 < dn ∧ e.eval p * (dn : Rat) ≤ (n : Rat) := by
+  obtain ⟨a, b⟩ := (reduce_red A B R x).keep p hp.1 hp.2
+  unfold prodMaximize at h
+  simp only at h
+  have fromA : ∀ r, A.maximize (reduce A B R x).d1 e = some r → r = (n, dn, incl) → 0 < dn ∧ e.eval p * (dn : Rat) ≤ (n : Rat) := by
+    intro r hr he; subst he
+    obtain ⟨h0, hs⟩ := A.maximize_spec _ e n dn incl hr
+    exact ⟨h0, (hs p a).1⟩
+  have fromB : ∀ r, B.maximize (reduce A B R x).d2 e = some r → r = (n, dn, incl) → 0 < dn ∧ e.eval p * (dn : Rat) ≤ (n : Rat) := by
+    intro r hr he; subst he
+    obtain ⟨h0, hs⟩ := B.maximize_spec _ e n dn incl hr
+    exact ⟨h0, (hs p b).1⟩
+  cases hA : A.maximize (reduce A B R x).d1 e with
+  | none =>
+    cases hB : B.maximize (reduce A B R x).d2 e with
+    | none => simp [hA, hB] at h
+    | some rb => simp only [hA, hB, Option.some.injEq] at h; exact fromB rb hB h
+  | some ra =>
+    cases hB : B.maximize (reduce A B R x).d2 e with
+    | none => simp only [hA, hB, Option.some.injEq] at h; exact fromA ra hA h
+    | some rb =>
+      simp only [hA, hB] at h
+      split at h
+      · simp only [Option.some.injEq] at h; exact fromA ra hA h
+      · simp only [Option.some.injEq] at h; exact fromB rb hB h
+
+theorem prodMinimize_sound (R : Policy) (x : Prod A B) (e : LE) (n dn : Int) (incl : Bool)
+    (h : prodMinimize A B R x e = some (n, dn, incl)) (p : Pt) (hp : A.γ x.d1 p ∧ B.γ x.d2 p) :
+    0 < dn ∧ (n : Rat) ≤ e.eval p * (dn : Rat) := by
+  obtain ⟨a, b⟩ := (reduce_red A B R x).keep p hp.1 hp.2
+  unfold prodMinimize at h
+  simp only at h
+  have fromA : ∀ r, A.minimize (reduce A B R x).d1 e = some r → r = (n, dn, incl) → 0 < dn ∧ (n : Rat) ≤ e.eval p * (dn : Rat) := by
+    intro r hr he; subst he
+    obtain ⟨h0, hs⟩ := A.minimize_spec _ e n dn incl hr
+    exact ⟨h0, (hs p a).1⟩
+  have fromB : ∀ r, B.minimize (reduce A B R x).d2 e = some r → r = (n, dn, incl) → 0 < dn ∧ (n : Rat) ≤ e.eval p * (dn : Rat) := by
+    intro r hr he; subst he
+    obtain ⟨h0, hs⟩ := B.minimize_spec _ e n dn incl hr
+    exact ⟨h0, (hs p b).1⟩
+  cases hA : A.minimize (reduce A B R x).d1 e with
+  | none =>
+    cases hB : B.minimize (reduce A B R x).d2 e with
+    | none => simp [hA, hB] at h
+    | some rb => simp only [hA, hB, Option.some.injEq] at h; exact fromB rb hB h
+  | some ra =>
+    cases hB : B.minimize (reduce A B R x).d2 e with
+    | none => simp only [hA, hB, Option.some.injEq] at h; exact fromA ra hA h
+    | some rb =>
+      simp only [hA, hB] at h
+      split at h
+      · simp only [Option.some.injEq] at h; exact fromA ra hA h
+      · simp only [Option.some.injEq] at h; exact fromB rb hB h
+
 end PPLV.Product
